@@ -93,7 +93,45 @@ class CallGraph:
                 tgts = None
                 if fe and fe["k"] == "un" and fe["op"] == "*":
                     fe = fe["e"]
-                if fe and fe["k"] == "ref" and fe["cat"] == "param":
+                while fe and fe["k"] == "cast":
+                    fe = fe["e"]
+                if fe and fe["k"] == "ref" and fe.get("cat") == "local":
+                    # a local that holds a table column: every value it is ever assigned
+                    srcs = []
+                    for n_ in f.walk():
+                        if n_["k"] == "var" and n_["name"] == fe["name"] and n_.get("init") is not None:
+                            srcs.append(n_["init"])
+                        if n_["k"] == "bin" and n_["op"] == "=" and n_["l"]["k"] == "ref" and n_["l"]["name"] == fe["name"]:
+                            srcs.append(n_["r"])
+                    allt = []
+                    okl = bool(srcs)
+                    for src in srcs:
+                        while src["k"] == "cast":
+                            src = src["e"]
+                        if src["k"] == "ref" and src["cat"] == "func":
+                            t = self.prog.resolve(f, src["name"])
+                            if t:
+                                allt.append(t.qname)
+                        elif src["k"] == "member":
+                            base = src["base"]
+                            while base["k"] in ("sub", "un", "member"):
+                                base = base.get("base") or base.get("e")
+                            if base["k"] == "ref" and base["cat"] == "global":
+                                for nm in sorted(self.table_column(base["name"], src["field"])):
+                                    t = self.prog.resolve(f, nm)
+                                    if t:
+                                        allt.append(t.qname)
+                            else:
+                                okl = False
+                        elif is_null(src):
+                            pass
+                        else:
+                            okl = False
+                    if okl:
+                        tgts = sorted(set(allt))
+                if tgts is not None:
+                    pass
+                elif fe and fe["k"] == "ref" and fe["cat"] == "param":
                     if fe["name"] in bmap:
                         t = bmap[fe["name"]]
                         tgts = [] if t is None else [t]
@@ -105,8 +143,32 @@ class CallGraph:
                         tgts = self._all_bindings(f, fe["name"])
                 elif fe and fe["k"] == "member":
                     base = fe["base"]
-                    while base["k"] in ("sub", "un", "member"):
+                    while base["k"] in ("sub", "un", "member", "cast"):
                         base = base.get("base") or base.get("e")
+                    if base["k"] == "ref" and base.get("cat") == "local":
+                        # a local pointer into a table: &T[i] / T + i
+                        tabs = set()
+                        okl = True
+                        for n_ in f.walk():
+                            src = None
+                            if n_["k"] == "var" and n_["name"] == base["name"] and n_.get("init") is not None:
+                                src = n_["init"]
+                            if n_["k"] == "bin" and n_["op"] == "=" and n_["l"]["k"] == "ref" and \
+                                    n_["l"]["name"] == base["name"]:
+                                src = n_["r"]
+                            if src is None:
+                                continue
+                            if is_null(src):
+                                continue
+                            b2 = src
+                            while b2["k"] in ("sub", "un", "member", "cast") or (b2["k"] == "bin" and b2["op"] == "+"):
+                                b2 = b2.get("base") or b2.get("e") or b2.get("l")
+                            if b2["k"] == "ref" and b2["cat"] == "global":
+                                tabs.add(b2["name"])
+                            else:
+                                okl = False
+                        if okl and len(tabs) == 1:
+                            base = {"k": "ref", "cat": "global", "name": next(iter(tabs))}
                     if base["k"] == "ref" and base["cat"] == "global":
                         names = self.table_column(base["name"], fe["field"])
                         tgts = []
